@@ -133,6 +133,10 @@ func localRpcSetup(s *rt.Sim, tier string) func() {
 			return
 		}
 		cw, sw := watchConn(cConn), watchConn(sConn)
+		kaStop := false
+		if !ntn {
+			connKeepAlive(&kaStop, cConn, sConn)
+		}
 		if proto == "ltm" && (len(memTxs) == 0 || cConn.LocalTxMonitor() == nil) {
 			proto = "lts"
 		}
